@@ -25,14 +25,23 @@ int main(void)
       initMatrix(&cc); initMatrix(&rm); initMatrix(&bi);
       PLSRegressionStatistics(yt, yp, cc, rm, bi);
       pr_matrix("r2", cc); pr_matrix("rmse", rm); pr_matrix("bias", bi);
-      DelMatrix(&cc); DelMatrix(&rm); DelMatrix(&bi); DelMatrix(&yt); DelMatrix(&yp);
+      DelMatrix(&cc); DelMatrix(&rm); DelMatrix(&bi);
+      /* every table requested on its own (the other two arguments NULL) */
+      initMatrix(&cc); PLSRegressionStatistics(yt, yp, cc, NULL, NULL); pr_matrix("r2_alone", cc); DelMatrix(&cc);
+      initMatrix(&rm); PLSRegressionStatistics(yt, yp, NULL, rm, NULL); pr_matrix("rmse_alone", rm); DelMatrix(&rm);
+      initMatrix(&bi); PLSRegressionStatistics(yt, yp, NULL, NULL, bi); pr_matrix("bias_alone", bi); DelMatrix(&bi);
+      DelMatrix(&yt); DelMatrix(&yp);
     }
     else if(!strcmp(op, "mlrstat")){
       matrix *yt = rd_matrix(), *yp = rd_matrix(); dvector *cc, *rm, *bi;
       initDVector(&cc); initDVector(&rm); initDVector(&bi);
       MLRRegressionStatistics(yt, yp, cc, rm, bi);
       pr_dvector("r2", cc); pr_dvector("rmse", rm); pr_dvector("bias", bi);
-      DelDVector(&cc); DelDVector(&rm); DelDVector(&bi); DelMatrix(&yt); DelMatrix(&yp);
+      DelDVector(&cc); DelDVector(&rm); DelDVector(&bi);
+      initDVector(&cc); MLRRegressionStatistics(yt, yp, cc, NULL, NULL); pr_dvector("r2_alone", cc); DelDVector(&cc);
+      initDVector(&rm); MLRRegressionStatistics(yt, yp, NULL, rm, NULL); pr_dvector("rmse_alone", rm); DelDVector(&rm);
+      initDVector(&bi); MLRRegressionStatistics(yt, yp, NULL, NULL, bi); pr_dvector("bias_alone", bi); DelDVector(&bi);
+      DelMatrix(&yt); DelMatrix(&yp);
     }
     else{ fprintf(stderr, "unknown op %s\n", op); return 2; }
     pr_end();
